@@ -9,10 +9,10 @@ _OVERLAY = {
 _PKG = "./internal/rules/mechanisms/finalizers"
 
 # Which repairs the tree under test is expected to have = which variant of the model the implementation is compared with.
-# C16-F1: repaired by fix: commit d9caf75.  C16-F2: open (candidate fixes/C16-F2.diff); set _FIXED_F2 = True once it is applied.
+# C16-F1: repaired by fix: commit d9caf75.  C16-F2: repaired by fix: commit 186d696 (= fixes/C16-F2.diff).
 # VERIF_C16_FIXED="10" style overrides (first digit F1, second F2) are for examining other checkouts.
 import os as _os
-_FIXED_F1, _FIXED_F2 = True, False
+_FIXED_F1, _FIXED_F2 = True, True
 if _os.environ.get("VERIF_C16_FIXED"):
     _v = _os.environ["VERIF_C16_FIXED"] + "00"
     _FIXED_F1, _FIXED_F2 = _v[0] == "1", _v[1] == "1"
@@ -41,21 +41,27 @@ P = {
         "n_quick": 1, "n_thorough": 1, "findings": {}, "escalate": False,
         "env": {"VERIF_C16_RACE_MS": 1500, "VERIF_C16_RACE_CACHE": 1 if _FIXED_F2 else 0},
     }],
-    "rule": "histories: a jwt finalizer configuration (key_id absent / an existing id / unknown; signer name; ttl incl. fractional and "
-            "<= 5s / invalid; claims template of 0-4 members, 55% of them naming sub/iss/iat/nbf/exp/jti, values string/int/JSON/"
-            "subject id; cache on/off; custom header) x a PEM key store (1-4 private-key blocks from a pool of RSA 2048/3072/4096, "
+    "rule": "histories: a jwt finalizer configuration (key_id absent / an existing id / a near miss (prefix, suffix, other case) / unknown; "
+            "signer name; ttl incl. fractional, around the 5s cache leeway and invalid; claims template of 0-4 members, 55% of them "
+            "naming sub/iss/iat/nbf/exp/jti, values string/int/JSON/subject id/.Outputs.x/.Subject.Attributes.x; cache on/off; custom "
+            "header; 35%: a twin finalizer over the same key store with another signer name executing on the same cache; 30%: another "
+            "key holder registered before/after) x a PEM key store (1-4 private-key blocks from a pool of RSA 2048/3072/4096, "
             "P-256/384/521 and unsupported RSA-1024/P-224/Ed25519 keys; PKCS#8, PKCS#1/SEC1, encrypted PKCS#8; X-Key-ID present/absent/"
-            "duplicate; certificate chains none/self-signed/CA/CA+intermediate, with or without subject key id, flawed: no "
-            "digitalSignature usage, expired, not yet valid; block order keys-first/certs-first/interleaved; malformed: missing file, "
-            "directory, unsupported block, bad DER, wrong password, no PEM at all, truncated) x 2-8 operations (Execute for one of 4 "
-            "subjects, 40% of them on a rule-level variant made by the real WithConfig from an override with every subset of "
-            "{ttl, claims}, the empty override, or — malformed share — a member WithConfig must refuse (header/signer/values) or "
-            "ttl <= 1s / replace the file + OnChanged, biased to 'same key ids, other keys', rotation, dropping entries / GET JWKS) "
-            "through the real newJWTFinalizer, Execute, OnChanged, key-holder registry and management service; every token decomposed "
+            "duplicate; certificate chains none/self-signed/CA/CA+intermediate, with or without subject key id, flawed on the leaf (no "
+            "digitalSignature usage, expired, not yet valid) or on the issuing side (expired CA / intermediate); block order keys-first/"
+            "certs-first/interleaved; malformed: missing file, directory, unsupported block, bad DER, wrong password, no PEM at all, "
+            "truncated) x 2-8 operations: Execute for one of 2 subjects per run drawn from 11 ids (case, outer blanks, empty, "
+            "non-ASCII, quotes, tab) with varying outputs/attributes, 45% on the twin, 40% on a rule-level variant made by the real "
+            "WithConfig (every subset of {ttl, claims}, empty, refused members, ttl <= 1s), 25% WITH RELOADS LANDING INSIDE Execute "
+            "between its cache lookup and Sign (a hook cache performs them in Get; half of them followed by a roll-back) / replace "
+            "the file + OnChanged (same kids other keys, same kid other algorithm, rotation, dropping entries, roll-back to the previous "
+            "store, malformed) / GET JWKS / the cache's (virtual) clock advancing by ttl-5s-1ms, ttl-5s, ttl-1s, ttl, 2*ttl, ...; all through "
+            "the real newJWTFinalizer, WithConfig, Execute, OnChanged, key-holder registry and management service; every token decomposed "
             "and verified with go-jose against the JWKS body served right after it; non-trivial = a run that issued a token and either "
             "issued one after a successful reload or has a template naming a reserved claim; distinct by hash of the generated input. "
-            "skeleton: the lock/field-access skeleton of jwt_signer.go extracted by go/ast on every run. race: 6 workers x Execute + "
-            "JWKS against a reloader alternating 4 generations, under the race detector.",
+            "skeleton: lock/field-access skeleton of jwt_signer.go (plus unlocked `.signer.<field>` accesses anywhere in the package and "
+            "escaping pointers) extracted by go/ast on every run. race: 6 workers (half on a shared real memory cache with 3 subjects) x "
+            "Execute + JWKS, one goroutine calling Certificates()/Hash(), against a reloader cycling through 4 generations, under -race.",
     "anchors": ["internal/rules/mechanisms/finalizers/jwt_finalizer.go",
                 "internal/rules/mechanisms/finalizers/jwt_signer.go",
                 "internal/keystore/key_store.go", "internal/keystore/entry.go",
@@ -73,34 +79,44 @@ P = {
         "Go memory model and scheduler: the interleaving theorem is about the lock/field-access skeleton extracted from the source "
         "by a go/ast walker in the driver (straight-line reading; early returns checked not to leak a lock); sync.RWMutex is assumed to "
         "exclude writers from readers/writers; races themselves are only exhibited by the -race stress stream",
-        "memory cache semantics reduced to get/set by key without expiry (the driver uses ttl <= 5s, i.e. no caching, or >= 65s)",
+        "the cache of the histories is the driver's stub (get/set with expiry on a virtual clock, reloads triggered inside Get); the "
+        "real memory cache is used in the race stream only; what is checked is which key and ttl the finalizer hands to the cache",
+        "reloads landing inside Execute are placed at the one point that matters (between cache lookup and Sign); interleavings of "
+        "two concurrent Execute calls with each other are not enumerated (they share only the cache)",
     ],
-    "level_text": "Proof (kernel-checked, no axioms). Sequential part: for the model of key-store build, Entry.JWK, jwtSigner.load/Sign "
-                  "and jwtFinalizer.Execute with its token cache — system claims sub/iss/iat/nbf/exp/jti overwrite any custom claim and "
-                  "all other custom claims survive; exp-iat is the ttl (exact for whole seconds); a file is loaded iff it is a usable "
-                  "store, the active entry being the one with the configured key id else the first; every token names that entry's key "
-                  "id and algorithm, is signed by its key and verifies against the set published by the same load; the published set is "
-                  "the public halves and certificates of all entries; and for ALL histories of Execute/reload/JWKS operations every "
-                  "observation meets the specification (for the pinned tree: outside the inputs of finding C16-F1, since repaired). Schedule part: for every lock skeleton "
-                  "that passes wf_skeleton, every set of concurrent calls and every interleaving, all reads of one call see the "
-                  "fields of one load, with key, JWK and published set of that load at each read. Tied to the code by ~600 (quick) / "
-                  "12000 (thorough) generated histories through the real finalizer, signer, key store, registry and management "
-                  "service per run (incl. rule-level variants created by the real WithConfig: a variant is the catalogue configuration "
-                  "overlaid with exactly the given ttl/claims, exp-iat is that effective ttl), by re-extracting and checking the skeleton of jwt_signer.go on every run, and by a -race stress run.",
-    "level_note": "Partial: cryptography, PEM/X.509/JSON/template handling and the clock are trusted/observed, not modelled; the "
-                  "interleaving theorem is about the extracted lock skeleton under an idealised RWMutex, the Go memory model is not "
-                  "modelled (the race detector stream covers actual races only as far as its schedules go). Finding C16-F1 "
-                  "(cached token survived a reload that keeps kid+alg but replaces the key) was repaired by fix: commit d9caf75; the "
-                  "history theorem holds unguarded for the repaired model, the pinned behaviour is documented by "
-                  "C16_run_meets_spec_pinned / C16_F1_pinned_refuted, its witness is a corpus case (a regression is a VIOLATION). "
-                  "The two panic sites in load (Entries()[0], Entry.JWK) are kept in the model and proved unreachable since the "
-                  "fixes for C19-F1/F2 (C16_load_never_panics). "
-                  "Non-whole-second ttls give exp-iat in {floor(ttl), ceil(ttl)} (claims are whole seconds) — stated in the theorem, "
-                  "not counted as a finding. Concurrent reloads (watcher fires OnChanged in goroutines) may install the older of two "
-                  "files last; the state stays consistent, convergence is C18's subject.",
+    "level_text": "Proof (kernel-checked, no axioms). For the model of key-store build, Entry.JWK, jwtSigner.load/Sign/Hash and "
+                  "jwtFinalizer.WithConfig/Execute — Execute as it is: cache-key section, cache lookup, any key-store reloads, Sign section, "
+                  "cache store — and for ALL histories (any configuration incl. a twin finalizer with another signer name on the same cache "
+                  "and other key holders, any initial file, any list of Execute-on-prototype/twin/rule-level-variant with any reloads "
+                  "inside, reloads, JWKS requests, cache time passing): every observation meets the full specification of the finalizer "
+                  "(C16_run_meets_spec) and hence what the property statement fixes (C16_run_meets_property = the predicate the check "
+                  "evaluates on the implementation): every token handed out, fresh or reused, verifies against the key set served at that "
+                  "moment (for an Execute overlapped by reloads: at its beginning or end), names the active key's id and algorithm, is "
+                  "signed by it, has sub/iss/iat/nbf/exp/jti of the signer's making (custom claims cannot override them; exp-iat = the "
+                  "effective ttl, exact for whole seconds), a reused token is not older than its ttl, and every JWKS answer is free of "
+                  "private material and contains the current public keys. Plus: system claims win for any custom claims; variants overlay "
+                  "the catalogue configuration; load never panics; for every lock skeleton passing wf_skeleton, every set of calls and "
+                  "every interleaving, one call's reads see one load. Tied to the code by ~600 (quick) / 12000 (thorough) generated "
+                  "histories through the real finalizer, signer, key store, registry and management service per run, by re-extracting "
+                  "and checking the lock skeleton on every run, and by a -race stress run.",
+    "level_note": "Partial: cryptography, PEM/X.509/JSON/template handling and the clock are trusted/observed, not modelled (the issue "
+                  "time is inferred from the token and only bracketed by the driver's clock at second granularity, so `times_exact` "
+                  "constrains exp relative to iat, not iat itself); the interleaving theorem is about the extracted lock skeleton under an "
+                  "idealised RWMutex (field and type names are wired into the extractor; a refactoring to another synchronisation "
+                  "primitive needs the extractor adapted), the Go memory model is not modelled; concurrency of Execute with reloads is "
+                  "modelled by placing reloads between Execute's two critical sections, two concurrent Executes are not interleaved. "
+                  "Findings C16-F1 (cached token survived a same-kid key change; fix d9caf75) and C16-F2 (token signed after a reload "
+                  "filed under the previous key's cache key; fix 186d696) are repaired; the pinned behaviours are documented by "
+                  "C16_run_meets_spec_pinned (guards over-approximate the findings' inputs) and C16_F1/F2_pinned_refuted, their witnesses "
+                  "are corpus cases (a regression is a VIOLATION). The property predicate deliberately does not fix which files/overrides "
+                  "are accepted, the order/`use`/x5c of JWKS entries, typ, custom claims, or the upstream header: deviations there end as "
+                  "correspondence differences (VIOLATION ... no-failing-input-found), not as property failures. The two panic sites in "
+                  "load are proved unreachable since the fixes for C19-F1/F2. Non-whole-second ttls give exp-iat in {floor, ceil}. "
+                  "Concurrent reloads may install the older of two files last (watcher starts OnChanged in goroutines); the state stays "
+                  "consistent, convergence is C18's subject. watcher_impl.go is off the check's path (OnChanged is called directly).",
     "assumptions": [
-        "one catalogue finalizer (plus its rule-level variants) per run; Outputs() is empty and subject attributes are constant, so "
-        "the token cache key varies only in (kid, alg, key, issuer, ttl, template, subject) within a run",
+        "one catalogue finalizer, optionally its twin, and their rule-level variants per run; requests vary in subject id, one output "
+        "and one attribute, so the token cache key varies in (kid, alg, key, issuer, ttl, template, subject id, output, attribute)",
         "reloads are triggered by calling OnChanged directly after replacing the file (fsnotify delivery is not part of the check)",
         "the driver reads jwtSigner.Keys() slice identity to tell a successful reload from a failed one (OnChanged only logs)",
     ],
